@@ -5,9 +5,12 @@ B := build
 CXX := g++
 RTFLAGS := -fno-pie -std=c++17 -O2 -g -fno-omit-frame-pointer -Wall -Wextra -Wno-format-truncation -I.
 # prod variant: production memory orders + explicit fences (XENIUM_TSAN undefined)
-HFLAGS_COMMON := -fno-pie -std=c++17 -O1 -g -fsanitize=thread -DNDEBUG -DXENIUM_VERIF -I$(REPO) -I. -MMD -MP -w
+HFLAGS_BASE := -fno-pie -std=c++17 -O1 -g -fsanitize=thread -DXENIUM_VERIF -I$(REPO) -I. -MMD -MP -w
+HFLAGS_COMMON := $(HFLAGS_BASE) -DNDEBUG
 HFLAGS_prod := $(HFLAGS_COMMON) -U__SANITIZE_THREAD__
 HFLAGS_tsanv := $(HFLAGS_COMMON)
+# dbg variant: production memory orders with the library's own assert()s armed (an assertion failure is a CRASH verdict)
+HFLAGS_dbg := $(HFLAGS_BASE) -U__SANITIZE_THREAD__
 LIBS := -lpthread -ldl -Wl,-z,now -no-pie
 
 HARNESSES := $(basename $(notdir $(wildcard harness/*.cpp)))
@@ -23,10 +26,14 @@ $(B)/%.prod.o: harness/%.cpp | $(B)
 	$(CXX) $(HFLAGS_prod) -c $< -o $@
 $(B)/%.tsanv.o: harness/%.cpp | $(B)
 	$(CXX) $(HFLAGS_tsanv) -c $< -o $@
+$(B)/%.dbg.o: harness/%.cpp | $(B)
+	$(CXX) $(HFLAGS_dbg) -c $< -o $@
 
 $(B)/%.prod: $(B)/%.prod.o $(B)/rt.o $(B)/explore.o
 	$(CXX) -o $@ $^ $(LIBS)
 $(B)/%.tsanv: $(B)/%.tsanv.o $(B)/rt.o $(B)/explore.o
+	$(CXX) -o $@ $^ $(LIBS)
+$(B)/%.dbg: $(B)/%.dbg.o $(B)/rt.o $(B)/explore.o
 	$(CXX) -o $@ $^ $(LIBS)
 
 $(B):
@@ -35,5 +42,5 @@ $(B):
 clean:
 	rm -rf $(B)
 
-.PRECIOUS: $(B)/%.prod.o $(B)/%.tsanv.o
+.PRECIOUS: $(B)/%.prod.o $(B)/%.tsanv.o $(B)/%.dbg.o
 -include $(wildcard $(B)/*.d)
